@@ -249,7 +249,9 @@ class CircularEquilibrium(Equilibrium):
                 self._dqdr = func
             else:
                 coef_list = coef_list[1:]
-                exponent_list = range(1, 2 * len(coef_list) + 1, 2)
+                # q = a0 + a1*r**2 + a2*r**4 + ..., so the remaining coefficients multiply
+                # r**2, r**4, ...
+                exponent_list = range(2, 2 * len(coef_list) + 2, 2)
 
                 def func(x):
                     return sum(
